@@ -1,6 +1,7 @@
 (* modelrun_emitter: line protocol over the extracted C12 models (Emitter/EmitterModel.v, Emitter/EmitModel.v).
    em <P> <tokens..>          one emitter session, same tokens / same reply format as harness/emitter_diff.c
    ef|eb <c|f> <start> <end> <accept> <lens|->   emit_front / emit_back with the guard as written (c) or fixed (f)
+   rs <start> <end>           emit_start / emit_end after flatcc_builder_custom_reset
    sites                      the call-site inventory *)
 let split_on c s = String.split_on_char c s
 let pieces_of s = List.map zs_of_hex (split_on ',' s)
@@ -84,6 +85,9 @@ let handle = function
       let st = { emit_start = z_of_string s; emit_end = z_of_string e } in
       let guard = if g = "c" then toolarge_c else toolarge_fixed in
       if dir = "ef" then show_call (emit_front guard st iov (acc = "1")) else show_call (emit_back st iov (acc = "1"))
+  | ["rs"; s; e] ->
+      let st = bst_reset { emit_start = z_of_string s; emit_end = z_of_string e } in
+      Printf.sprintf "start=%s end=%s" (zstr st.emit_start) (zstr st.emit_end)
   | ["sites"] ->
       String.concat ";" (List.map (fun ((n, f), b) -> Printf.sprintf "%s:%s:%s" (zstr n) (if f then "F" else "-") (if b then "B" else "-")) site_inventory)
   | l -> "BAD " ^ String.concat " " l
